@@ -3,6 +3,7 @@ package props
 import (
 	"fmt"
 	"go/token"
+	"go/types"
 	"strings"
 
 	"golang.org/x/tools/go/ssa"
@@ -297,4 +298,115 @@ func c01RootStaysBlock(c *core.Check) {
 	if n == 0 {
 		r.Skip("html/boxes.elementToBox | SetDisplay(inline …)", p.Pos(fn.Pos()), "elementToBox sets no inline display")
 	}
+}
+
+// c01NilCheckedThenUsed (R33): a contradiction lint (Engler et al.): when a function compares an optional value (an
+// interface such as pr.MaybeFloat, obtained from a call) with nil on one path, it believes the value can be nil; a
+// method called on the same value on a path where no such comparison found it non-nil contradicts that belief.  For
+// every interface-typed result of a call that the function compares with nil: each method invoked on it is reached
+// only when one of those comparisons says "not nil".  Scope: packages svg and images (the optional intrinsic sizes).
+// (svg.image.draw tested the intrinsic ratio for nil in its first branch and called V() on it in the two others.)
+func c01NilCheckedThenUsed(c *core.Check) {
+	p := c.Prog
+	r := c.Rule("R33", "a value compared with nil is not used where it may be nil: in packages svg and images, for every interface-typed result of a call that the function compares with nil, each method invoked on that value is reached only when one of the comparisons found it non-nil", 3)
+	n := 0
+	for _, pkg := range []string{"svg", "images"} {
+		for _, fn := range p.FuncsOfPkg(pkg) {
+			fn := fn
+			// candidate values: compared with nil
+			type cand struct {
+				atoms []ssa.Value
+				eq    map[ssa.Value]bool
+			}
+			cands := map[ssa.Value]*cand{}
+			var order []ssa.Value
+			for _, a := range core.CondAtoms(fn) {
+				b, ok := a.(*ssa.BinOp)
+				if !ok || (b.Op != token.EQL && b.Op != token.NEQ) {
+					continue
+				}
+				for _, side := range [][2]ssa.Value{{b.X, b.Y}, {b.Y, b.X}} {
+					k, ok := side[1].(*ssa.Const)
+					if !ok || !k.IsNil() {
+						continue
+					}
+					v := side[0]
+					if _, isIface := v.Type().Underlying().(*types.Interface); !isIface {
+						continue
+					}
+					switch v.(type) {
+					case *ssa.Extract, *ssa.Call:
+					default:
+						continue
+					}
+					if cands[v] == nil {
+						cands[v] = &cand{eq: map[ssa.Value]bool{}}
+						order = append(order, v)
+					}
+					cands[v].atoms = append(cands[v].atoms, a)
+					cands[v].eq[a] = b.Op == token.EQL
+				}
+			}
+			for _, v := range order {
+				cd := cands[v]
+				k := 0
+				core.Instrs(fn, func(in ssa.Instruction) {
+					call, ok := in.(*ssa.Call)
+					if !ok || !call.Call.IsInvoke() || call.Call.Value != v {
+						return
+					}
+					k++
+					n++
+					key := fmt.Sprintf("%s | (%s).%s() #%d", core.FuncName(fn), resultName(v), call.Call.Method.Name(), k)
+					// all the comparisons with nil of the function take part: the same value is compared more than once
+					// (no common sub-expressions in this form), and what is known of one value decides another
+					// (`a == nil && b == nil … else if a == nil`: b is not nil there)
+					var all []ssa.Value
+					for _, v2 := range order {
+						all = append(all, cands[v2].atoms...)
+					}
+					if len(all) > 12 {
+						r.Skip(key, p.Pos(call.Pos()), "too many comparisons with nil to enumerate")
+						return
+					}
+					ok2, _ := core.GuardedBy(fn, call.Block(), all, func(m map[ssa.Value]bool) bool {
+						// an assignment that gives two answers for one value is not a path
+						for _, v2 := range order {
+							isNil, seen := false, false
+							for _, a := range cands[v2].atoms {
+								nilHere := m[a] == cands[v2].eq[a]
+								if seen && nilHere != isNil {
+									return true
+								}
+								isNil, seen = nilHere, true
+							}
+						}
+						for _, a := range cd.atoms {
+							if m[a] != cd.eq[a] { // this comparison says "not nil"
+								return true
+							}
+						}
+						return false
+					})
+					r.Cond(ok2, key, p.Pos(call.Pos()), "reached only when the value was found non-nil", "the function compares this value with nil elsewhere, and this call of a method on it is reached without any of those comparisons having found it non-nil: nil pointer dereference")
+				})
+			}
+		}
+	}
+	if n == 0 {
+		r.Anchor("methods invoked on nil-compared optional values in svg and images")
+	}
+}
+
+// resultName names a value that is the result of a call without its register: "result 2 of GetIntrinsicSize".
+func resultName(v ssa.Value) string {
+	switch x := v.(type) {
+	case *ssa.Extract:
+		if call, ok := x.Tuple.(*ssa.Call); ok {
+			return fmt.Sprintf("result %d of %s", x.Index, core.CalleeName(call))
+		}
+	case *ssa.Call:
+		return "result of " + core.CalleeName(x)
+	}
+	return "value"
 }
